@@ -87,7 +87,8 @@ def run_check(prop, tier, replay_path=None):
     lines = []
     with C.Work(prop) as work:
         # ---- 1. proof obligations
-        ok_build, log = C.lean_build()
+        # only what this property needs: a broken module elsewhere in the library must not take this property down
+        ok_build, log = C.lean_build(list(meta["modules"]) + list(META.get("drivers", [])))
         thms = meta["theorems"]
         if ok_build:
             audit = C.lean_audit(prop, thms, meta["modules"], work)
